@@ -1006,8 +1006,10 @@ def run_C19(res, tier, seed, t_end, bad):
     clientlevel.run_C19_cache(res, tier, seed, t_end)
     if res.findings:
         return
-    plan = Sx.plan_scripts(budget(tier, 45, 70))
-    for h in range(budget(tier, 40, 1000)):
+    plan_direct = Sx.plan_scripts(budget(tier, 45, 70))
+    plan_tx = Sx.plan_scripts_tx(budget(tier, 8, 14))      # script commands queued inside MULTI (run by EXEC like direct ones)
+    for h in range(budget(tier, 60, 1400)):
+        plan = plan_tx if h % 3 == 2 else plan_direct
         if time.time() > t_end:
             res.notes.append('time budget reached')
             break
